@@ -194,6 +194,8 @@ enum Mutation {
     Nest(u8, u32),
     /// overwrite two/four bytes at a position with a length-like value
     LenField(u16, u8),
+    /// rewrite the k-th CBOR integer head to a boundary value (2^63-1, 2^63, 2^64-1, -2^63-1, -2^64)
+    IntBoundary(u16, u8),
     Splice(u16, u16, u16),
     None,
 }
@@ -284,6 +286,18 @@ fn apply(m: &Mutation, mut b: Vec<u8>, json_like: bool) -> Vec<u8> {
                 v
             }
         }
+        Mutation::IntBoundary(k, which) => {
+            let heads: Vec<(usize, u8, usize)> = cbor_heads(&b).into_iter().filter(|h| h.1 <= 1).collect();
+            if heads.is_empty() {
+                return b;
+            }
+            let (off, _, hl) = heads[idx(*k, heads.len())];
+            let (major, val): (u8, u64) = [(0u8, (1u64 << 63) - 1), (0, 1 << 63), (0, u64::MAX), (1, 1 << 63), (1, u64::MAX), (1, (1 << 63) - 1)][*which as usize % 6];
+            let mut head = vec![(major << 5) | 27];
+            head.extend_from_slice(&val.to_be_bytes());
+            b.splice(off..off + hl, head);
+            b
+        }
         Mutation::LenField(p, which) => {
             if b.len() >= 2 {
                 let i = idx(*p, b.len() - 1);
@@ -314,6 +328,7 @@ fn mutation() -> impl Strategy<Value = Mutation> {
         2 => (any::<u16>(), any::<u8>()).prop_map(|(k, w)| Mutation::InsertHead(k, w)),
         1 => (any::<u8>(), prop_oneof![Just(10u32), Just(127), Just(129), Just(300), Just(5_000), Just(100_000)]).prop_map(|(k, d)| Mutation::Nest(k, d)),
         2 => (any::<u16>(), any::<u8>()).prop_map(|(p, w)| Mutation::LenField(p, w)),
+        2 => (any::<u16>(), any::<u8>()).prop_map(|(p, w)| Mutation::IntBoundary(p, w)),
         1 => (any::<u16>(), any::<u16>(), any::<u16>()).prop_map(|(a, b, c)| Mutation::Splice(a, b, c)),
         1 => Just(Mutation::None),
     ]
@@ -354,7 +369,22 @@ fn valid() -> impl Strategy<Value = (usize, Vec<u8>, bool)> {
     });
     let b64 = proptest::collection::vec(any::<u8>(), 0..200).prop_map(|b| (12usize, [crate::model::util::b64url(&b), crate::model::util::b64std_padded(&b)][b.len() % 2].clone().into_bytes(), true));
     let u2f = c17::frame_bytes().prop_map(|(d, b)| (d, b, false));
-    let hid = c16::stream_bytes().prop_map(|b| (16usize, b, false));
+    let hid = prop_oneof![
+        4 => c16::stream_bytes(),
+        // many initialization packets on distinct channels, each announcing a long message that never continues
+        1 => (prop_oneof![Just(60usize), Just(400), Just(2500)], any::<u16>(), any::<u32>()).prop_map(|(n, declared, base)| {
+            let mut out = Vec::with_capacity(n * 65);
+            for i in 0..n {
+                out.push(64u8);
+                out.extend_from_slice(&base.wrapping_add(i as u32).to_be_bytes());
+                out.push(0x83);
+                out.extend_from_slice(&(declared | 0x8000).to_be_bytes());
+                out.extend_from_slice(&[0xAB; 57]);
+            }
+            out
+        }),
+    ]
+    .prop_map(|b| (16usize, b, false));
     let cose = (proptest::collection::vec(any::<u8>(), 0..40), proptest::collection::vec(any::<u8>(), 32..=32), any::<bool>()).prop_map(|(x, y, private)| {
         // a valid P-256 point now and then
         let (x, y) = if x.len() % 3 == 0 {
@@ -423,6 +453,7 @@ fn case_strategy() -> impl Strategy<Value = Case> {
                 Mutation::InsertHead(..) => "inserted-huge-head",
                 Mutation::Nest(..) => "deep-nesting",
                 Mutation::LenField(..) => "length-field",
+                Mutation::IntBoundary(..) => "integer-boundary",
                 Mutation::Splice(..) => "splice",
                 Mutation::None => "valid",
             });
